@@ -33,10 +33,18 @@ def root_calls(tree):
     out = []
     for alt in flow.top_alternatives(tree):
         cur = alt
+        tup = []   # tuple positions selected on the way in (outermost first), Option payload fields excluded
         while cur[0] in ('field', 'downcast', 'index', 'cast', 'set'):
+            if cur[0] == 'field' and isinstance(cur[2], str) and re.match(r'^\.\d+$', cur[2]):
+                tup.append(int(cur[2][1:]))
             cur = cur[1]
         if cur[0] == 'call' and len(cur) > 3:
             c = cur[3]
+            # a.zip(b).next() yields (a_i, b_i): the innermost tuple position says which side the value came from
+            if c.callee and re.search(r'zip::Zip<.*Iterator>::next$', c.callee) and cur[2] and cur[2][0][0] == 'call' and len(cur[2][0]) > 3 and \
+                    cur[2][0][3].callee and cur[2][0][3].callee.endswith('Iterator::zip') and tup and tup[-1] < len(cur[2][0][2]):
+                out += root_calls(cur[2][0][2][tup[-1]])
+                continue
             # iterator plumbing: next(into_iter(X)) / flatten -> look through to X
             if c.callee and re.search(r'Iterator>::next$|Option<.*>::flatten$|Option::flatten$|IntoIterator>::into_iter$|Iterator::enumerate$', c.callee) and cur[2]:
                 out += root_calls(cur[2][0])
@@ -174,7 +182,7 @@ def run(ctx, prog):
                 # metadata_index may be written after the gate is released in batch_delete (deferred maintenance under snapshot lock)
                 ok = 'HnswBackend.write_gate' in h or (a.cls == 'HnswBackend.metadata_index' and 'PersistenceState.snapshot_lock' in h)
                 n += 1
-                k = sum(1 for x in ctx.instances if x['rule'] == 'C05.R2' and x['key'].startswith('C05.R2 | %s | %s' % (f.short, a.cls)))
+                k = sum(1 for x in ctx.instances if x.get('config') == ctx.config and x['rule'] == 'C05.R2' and x['key'].startswith('C05.R2 | %s | %s' % (f.short, a.cls)))
                 ctx.inst('C05.R2', f.short, '%s.write() #%d under the write gate' % (a.cls, k), ok, 'held at %s: %s' % (a.call.loc, sorted(h)))
     ctx.floor('C05.R2', 'exclusive canonical acquisitions in mutators', n, 9, '')
     # the deciding read is serialised too: the shared doc_store acquisition with which a mutator looks the document up (what `existed` / the
@@ -186,14 +194,16 @@ def run(ctx, prog):
             if a.cls == 'HnswBackend.doc_store' and a.mode == 'R':
                 n_r += 1
                 h = lm.held_at(f, bb, must=True)
-                k = sum(1 for x in ctx.instances if x['rule'] == 'C05.R2' and x['key'].startswith('C05.R2 | %s | doc_store.read()' % f.short))
+                k = sum(1 for x in ctx.instances if x.get('config') == ctx.config and x['rule'] == 'C05.R2' and x['key'].startswith('C05.R2 | %s | doc_store.read()' % f.short))
                 ctx.inst('C05.R2', f.short, 'doc_store.read() #%d (pre-flight lookup) under the write gate' % k, 'HnswBackend.write_gate' in h, 'held at %s: %s' % (a.call.loc, sorted(h)))
     ctx.floor('C05.R2', 'pre-flight lookups in mutators', n_r, 4, 'one per mutator')
     ct = ctx.body('C05.R2', 'HnswBackend::compact_tombstones')
     for bb, a in sorted(lm.body_acqs.get(ct.id, {}).items()):
         if a.cls in ('HnswBackend.doc_store', 'HnswBackend.index') and a.mode == 'W':
             h = lm.held_at(ct, bb, must=True)
-            ctx.inst('C05.R2', ct.short, '%s.write() under the exclusive snapshot lock' % a.cls, h.get('PersistenceState.snapshot_lock', (None,))[0] == 'W', 'held: %s' % sorted(h))
+            g5 = h.get('HnswBackend.write_gate')
+            ctx.inst('C05.R2', ct.short, '%s.write() with the mutators excluded' % a.cls, h.get('PersistenceState.snapshot_lock', (None,))[0] == 'W' or (g5 is not None and not g5[1]),
+                     'held: %s (the exclusive snapshot lock or the write gate keeps mutators out)' % sorted(h))
     ctx.exception('C05.R2', 'HnswBackend::compact_tombstones', 'stop-the-world rebuild under snapshot_lock(W); writers hold snapshot_lock(R) before the gate, so they are excluded')
     # the token read is the reader's linearisation point: the validator compares the FULL token (version and digest: the version restarts at 1 after
     # delete + reinsert) and the copy's own digest — same instances as C04.R3
